@@ -62,7 +62,9 @@ def tie(tag, module_path, funcs, tmpl_name, theorems, imports=""):
             untranslated[fn] = str(exc)      # its theorems (and those that use it) will fail to compile
         except (OSError, SyntaxError) as exc:
             return [(t, False, "cannot read the source: %s" % exc) for t in theorems]
-    tmpl = open(os.path.join(os.path.dirname(__file__), tmpl_name)).read()
+    # tmpl_name: one template, or several that are concatenated in the given order
+    tmpl_names = [tmpl_name] if isinstance(tmpl_name, str) else list(tmpl_name)
+    tmpl = "".join(open(os.path.join(os.path.dirname(__file__), n)).read() for n in tmpl_names)
     # split the template into sections
     pos = [m.start() for m in SECTION.finditer(tmpl)] + [len(tmpl)]
     sections = [tmpl[:pos[0]]] + [tmpl[pos[i]:pos[i + 1]] for i in range(len(pos) - 1)]
@@ -111,10 +113,10 @@ def tie(tag, module_path, funcs, tmpl_name, theorems, imports=""):
 
 
 COORD_FUNCS = ["check_region", "get_region", "pad_region", "spacing_to_size", "line_coordinates", "shape_to_spacing",
-               "grid_coordinates", "inside"]
+               "grid_coordinates", "inside", (os.path.join("verde", "projections.py"), "project_region")]
 COORD_THEOREMS = ["src_check_region_eq", "src_get_region_eq", "src_pad_region_scalar_eq", "src_pad_region_pair_eq",
                   "src_spacing_to_size_eq", "src_line_coordinates_eq", "src_shape_to_spacing_eq",
-                  "src_grid_coordinates_eq", "src_inside_eq"]
+                  "src_grid_coordinates_eq", "src_inside_eq", "src_project_region_eq"]
 COORD_IMPORTS = "From Verde Require Import Proofs.PyLiteBridge."
 
 
@@ -148,7 +150,7 @@ def utils_obligations():
 
 CHECKS_FUNCS = ["check_data_names", "check_extra_coords_names", "check_data", "check_coordinates", "check_fit_input"]
 CHECKS_THEOREMS = ["src_check_data_names_eq", "src_check_extra_coords_names_eq", "src_check_data_eq",
-                   "src_check_coordinates_eq", "src_check_fit_input_eq"]
+                   "src_check_coordinates_eq", "src_check_fit_input_eq", "src_check_fit_input_gen"]
 CHECKS_IMPORTS = "From Verde Require Import Model.Checks Proofs.PyLiteBridge."
 
 
@@ -171,6 +173,40 @@ def trend_obligations():
                TREND_THEOREMS, TREND_IMPORTS)
 
 
+TREND_METHODS_FUNCS = ["Trend.predict", "Trend.jacobian", "Trend.fit",
+                       (os.path.join("verde", "coordinates.py"), "get_region"),
+                       (os.path.join("verde", "base", "utils.py"), "n_1d_arrays")]
+TREND_METHODS_THEOREMS = ["src_Trend_predict_bcast", "src_Trend_predict_eq", "src_Trend_predict_scalar_east",
+                          "src_Trend_predict_scalar_north", "src_Trend_predict_unfitted", "src_Trend_jacobian_eq",
+                          "src_Trend_jacobian_shapes", "src_Trend_fit_eq", "src_Trend_fit_rejects"]
+TREND_METHODS_IMPORTS = "From Verde Require Import Model.Trend Proofs.TrendProofs Proofs.PyLiteBridge."
+
+
+def c03_obligations():
+    """verde/trend.py: polynomial_power_combinations (as trend_obligations) and, in the same generated file,
+    Trend.predict / Trend.jacobian against trend_predict / trend_jacobian of Model/Trend.v, with the callee
+    polynomial_power_combinations instantiated by its serialised source, and the glue of Trend.fit (its callees
+    Trend.jacobian and get_region instantiated by their serialised sources, check_fit_input and least_squares
+    arbitrary functions) (harness/pylite_trend_methods.v.tmpl)"""
+    return tie("TrendSrc", os.path.join("verde", "trend.py"), TREND_FUNCS + TREND_METHODS_FUNCS,
+               ["pylite_trend.v.tmpl", "pylite_trend_methods.v.tmpl"], TREND_THEOREMS + TREND_METHODS_THEOREMS,
+               TREND_METHODS_IMPORTS)
+
+
+LSQ_FUNCS = ["least_squares"]
+LSQ_THEOREMS = ["src_least_squares_eq", "src_least_squares_minimises"]
+LSQ_IMPORTS = ("From Verde Require Import Lib.LinAlgQ Model.LeastSquares Proofs.LeastSquaresProofs "
+               "Proofs.PyLiteBridge.")
+
+
+def lsq_obligations():
+    """verde/base/least_squares.py least_squares (property C02): its glue against the code path of
+    Model/LeastSquares.v (scaled_matrix / unscale), the scikit-learn objects by specification; to hook it:
+    `obligations = pylite_tie.lsq_obligations` in harness/c02.py"""
+    return tie("LsqSrc", os.path.join("verde", "base", "least_squares.py"), LSQ_FUNCS, "pylite_lsq.v.tmpl",
+               LSQ_THEOREMS, LSQ_IMPORTS)
+
+
 CV_FUNCS = [(os.path.join("verde", "base", "base_classes.py"), "BaseBlockCrossValidator.__init__"),
             "BlockKFold.__init__", "BlockShuffleSplit.__init__"]
 CV_THEOREMS = ["src_BaseBlockCrossValidator_init_eq", "src_BlockKFold_init_eq", "src_BlockShuffleSplit_init_eq"]
@@ -189,16 +225,48 @@ def c11_obligations():
     return utils_obligations() + cv_obligations() + cvsplit_obligations() + bss_obligations()
 
 
-CHAIN_FUNCS = ["Chain.predict", (os.path.join("verde", "base", "utils.py"), "check_data")]
-CHAIN_THEOREMS = ["src_Chain_predict_eq", "chain_predict_from_fold"]
+_BASE_UTILS = os.path.join("verde", "base", "utils.py")
+_BASE_CLASSES = os.path.join("verde", "base", "base_classes.py")
+_COORDS = os.path.join("verde", "coordinates.py")
+_VECTOR = os.path.join("verde", "vector.py")
+CHAIN_FUNCS = [(_BASE_UTILS, "check_data_names"), (_BASE_UTILS, "check_extra_coords_names"), (_BASE_UTILS, "check_data"),
+               (_BASE_UTILS, "check_coordinates"), (_BASE_UTILS, "check_fit_input"),
+               "Chain.predict", (_BASE_CLASSES, "BaseGridder.filter"), "Chain.fit", (_COORDS, "get_region"),
+               "Chain.__init__",
+               (_VECTOR, "Vector.fit"), (_VECTOR, "Vector.predict"), (_VECTOR, "Vector.__init__")]
+CHAIN_THEOREMS = ["src_Chain_predict_eq", "chain_predict_from_fold",
+                  "src_BaseGridder_filter_eq", "src_Chain_fit_eq", "src_Chain_fit_calls", "chain_fit_calls_model",
+                  "src_Chain_init_eq",
+                  "src_Vector_fit_eq", "src_Vector_fit_calls", "src_Vector_predict_eq", "src_Vector_init_eq",
+                  "vector_calls_model", "vector_predict_model"]
 CHAIN_IMPORTS = "From Verde Require Import Model.Chain Proofs.PyLiteBridge."
+# Chain + Vector in one file (the checks template first: Vector.fit calls check_fit_input); Model.Checks is
+# required but not imported (its `run` / `call` / `vector_fit` would shadow PyLite's and Model.Chain's)
+CHAINV_IMPORTS = "From Verde Require Model.Checks.\nFrom Verde Require Import Model.Chain Proofs.PyLiteBridge."
+CHAIN_TEMPLATES = ["pylite_checks.v.tmpl", "pylite_chain.v.tmpl", "pylite_vector.v.tmpl"]
 
 
 def chain_obligations():
-    """verde/chain.py Chain.predict against Model/Chain.v (property C06); to hook it:
-    `obligations = pylite_tie.chain_obligations` in harness/c06.py"""
-    return tie("ChainSrc", os.path.join("verde", "chain.py"), CHAIN_FUNCS, "pylite_chain.v.tmpl",
-               CHAIN_THEOREMS, CHAIN_IMPORTS)
+    """verde/chain.py Chain.predict / Chain.fit / Chain.__init__, BaseGridder.filter and verde/vector.py
+    Vector.fit / Vector.predict / Vector.__init__ against Model/Chain.v (property C06); the checks template
+    comes first because Vector.fit calls check_fit_input (its theorems are reported by C20, not here).
+    To hook it: `obligations = pylite_tie.chain_obligations` in harness/c06.py"""
+    return tie("ChainSrc", os.path.join("verde", "chain.py"), CHAIN_FUNCS, CHAIN_TEMPLATES,
+               CHAIN_THEOREMS, CHAINV_IMPORTS)
+
+
+GRIDDER_FUNCS = ["get_instance_region", "BaseGridder._get_dims", "BaseGridder._get_data_names",
+                 (_BASE_UTILS, "check_data_names"), "BaseGridder._get_extra_coords_names"]
+GRIDDER_THEOREMS = ["src_get_instance_region_eq", "src_BaseGridder_get_dims_eq", "src_BaseGridder_get_data_names_eq",
+                    "src_BaseGridder_get_extra_coords_names_eq"]
+GRIDDER_IMPORTS = "From Verde Require Import Model.Gridder Proofs.PyLiteBridge."
+
+
+def gridder_obligations():
+    """verde/base/base_classes.py get_instance_region, BaseGridder._get_dims / _get_data_names /
+    _get_extra_coords_names against the naming and defaulting rules of Model/Gridder.v (property C05);
+    to hook it: `obligations = pylite_tie.gridder_obligations` in harness/c05.py"""
+    return tie("GridderSrc", _BASE_CLASSES, GRIDDER_FUNCS, "pylite_gridder.v.tmpl", GRIDDER_THEOREMS, GRIDDER_IMPORTS)
 
 
 SURFER_FUNCS = ["_read_surfer_header", "_check_surfer_integrity"]
